@@ -257,6 +257,13 @@ def check_wellformed(rep, binary, rng, airports, fields, count):
         for t in tomls:
             index.append((k, "toml", len(lines)))
             lines.append({"toml": t})
+    # every tenth specification is asked again later in the same process, in another order: the serial may depend on
+    # nothing but the endpoint, in particular not on what was asked before
+    first_lines = len(lines)
+    again = [i for i in range(first_lines) if rng.random() < 0.1]
+    rng.shuffle(again)
+    for i in again:
+        lines.append(lines[i])
     log = drive(binary, "source", lines)
     log2 = drive(binary, "source", lines)  # a second process: the serial must not depend on the run
     if len(log) != len(lines) or len(log2) != len(lines):
@@ -298,6 +305,32 @@ def check_wellformed(rep, binary, rng, airports, fields, count):
         if res.get("serial") != res2.get("serial"):
             rep.violation("C16:serial-differs-between-runs", f"{text!r}: serial {res.get('serial')} in one process, {res2.get('serial')} in another", replay)
         rep.cls("serial-compared:two-processes")
+    for j, i in enumerate(again):
+        a, b = log[i], log[first_lines + j]
+        rep.evaluations += 1
+        text = lines[i].get("s", lines[i].get("toml"))
+        if a.get("result") == "ok" and (b.get("result") != "ok" or a.get("serial") != b.get("serial") or a.get("address") != b.get("address")):
+            scheme = next(iter(a.get("address") or {"?": 0}))
+            rep.violation(f"C16:serial-depends-on-history:{scheme}", f"{text!r} gave serial {a.get('serial')} (address {a.get('address')}) when first asked and "
+                          f"serial {b.get('serial')} (result {b.get('result')}, address {b.get('address')}) when asked again later in the same process",
+                          {"mode": "source-history", "lines": [lines[i]] * 3})
+        rep.cls("serial-compared:asked-again-in-the-same-process")
+    # one endpoint, one serial, whatever the spelling and the case it came from
+    by_endpoint = {}
+    for (k, kind, li) in index:
+        res = log[li]
+        if res.get("result") != "ok" or res.get("serial") is None:
+            continue
+        key = json.dumps(res.get("address"), sort_keys=True)
+        text = lines[li].get("s", lines[li].get("toml"))
+        if key in by_endpoint and by_endpoint[key][0] != res.get("serial"):
+            rep.violation(f"C16:serial-not-a-function-of-endpoint:{next(iter(res.get('address') or {'?': 0}))}",
+                          f"endpoint {key}: serial {by_endpoint[key][0]} for {by_endpoint[key][1]!r} and {res.get('serial')} for {text!r}",
+                          {"mode": "source-history", "lines": [{"s": by_endpoint[key][1]} if not by_endpoint[key][1].endswith("\n") else {"toml": by_endpoint[key][1]}, lines[li]]})
+        elif key in by_endpoint:
+            rep.cls("serial-compared:same-endpoint-two-cases")
+        else:
+            by_endpoint[key] = (res.get("serial"), text)
     rep.extra["distinct_endpoints"] = len({json.dumps(c[1], sort_keys=True) for c in cases})
     rep.extra["distinct_serials"] = len({v for v in serial_of.values()})
 
@@ -436,13 +469,20 @@ def worker(args):
     rep.extra["mandatory"] = ["cli:usage-error(exit 2)", "wellformed:tcp", "wellformed:udp", "wellformed:ws", "wellformed:rtlsdr", "wellformed:short",
                               "toml:tcp", "toml:udp", "toml:websocket", "toml:rtlsdr", "position:airport", "position:latlon",
                               "mutated-fixed", "mutated-random", "random", "position-hostile", "serial-compared:string-vs-table",
-                              "serial-compared:two-processes"]
+                              "serial-compared:two-processes", "serial-compared:asked-again-in-the-same-process", "serial-compared:same-endpoint-two-cases"]
     return rep.to_dict()
 
 
 def replay(binary, data):
     rep = Rep("C16")
     r = data["replay"]
+    if r.get("mode") == "source-history":
+        log = drive(binary, "source", r["lines"])
+        oks = [x for x in log if x.get("result") == "ok"]
+        rep.evaluations = 1
+        if len({x.get("serial") for x in oks}) > 1:
+            rep.violation("C16:serial-depends-on-history", f"{r['lines']} gave serials {[x.get('serial') for x in oks]} in one process", r)
+        return rep.to_dict()
     log = drive(binary, "source", [r["line"]])
     res = log[0]
     rep.evaluations = 1
